@@ -320,6 +320,50 @@ def run(ctx):
                 dis.append({"what": "Ttl.readLines (model) vs BigTtlTriplesYielder on a document that declares a prefix twice", "doc": text,
                             "model": mres2.get("r%d" % k, [])[:6], "impl": got[:6]})
                 break
+    # the same reader behind every delivery: two documents given as a list of files (plain and gz) and as a zip archive read like their
+    # concatenation given as one string (untyped numbers included - the numeric inference must be on in every branch)
+    import tempfile, os, gzip, zipfile, shutil
+    from shexer.shaper import Shaper as _Sh7
+    from shexer import consts as _C7
+    stats["multi_file_deliveries"] = 0
+    tdir = tempfile.mkdtemp(prefix="verif_c07_")
+    try:
+        for i in range(12 if ctx.tier == "quick" else 150):
+            parts = []
+            for k in range(2):
+                groups = gen_groups(rng)
+                groups.append((('I', PFX['ex'] + 'num%d' % k), [(('I', RDF_TYPE), [('I', PFX['ex'] + 'Num')]), (('I', PFX['ex'] + 'age'), [('N', rng.choice(['23', '-2', '+7']))])]))
+                parts.append(header(rng, False) + layout(rng, token_stream(rng, groups, False)))
+            whole = "".join(parts)
+            def shapes_of(**kw):
+                try:
+                    return _Sh7(all_classes_mode=True, input_format=_C7.TURTLE_ITER, **kw).shex_graph(string_output=True)
+                except Exception as e:
+                    return "EXC %s %s" % (type(e).__name__, str(e)[:100])
+            ref = shapes_of(raw_graph=whole)
+            paths, gzs = [], []
+            for k, part in enumerate(parts):
+                pth = os.path.join(tdir, "d%d_%d.ttl" % (i, k))
+                open(pth, "w", encoding="utf-8").write(part)
+                paths.append(pth)
+                with gzip.open(pth + ".gz", "wt", encoding="utf-8") as fh:
+                    fh.write(part)
+                gzs.append(pth + ".gz")
+            zpath = os.path.join(tdir, "d%d.zip" % i)
+            with zipfile.ZipFile(zpath, "w") as z:
+                for k, part in enumerate(parts):
+                    z.writestr("m%d.ttl" % k, part)
+            stats["multi_file_deliveries"] += 1
+            for cname, got in (("list of files", shapes_of(graph_list_of_files_input=paths)),
+                               ("list of gz files", shapes_of(graph_list_of_files_input=gzs, compression_mode=_C7.GZ)),
+                               ("zip archive", shapes_of(graph_file_input=zpath, compression_mode=_C7.ZIP)),
+                               ("single file", shapes_of(graph_file_input=paths[0]) if False else ref)):
+                if got != ref and not ref.startswith("EXC"):
+                    viol.append({"what": "TURTLE_ITER, %s: other shapes than the same documents given as one string" % cname,
+                                 "doc": whole, "as_string": ref[-500:], "as_" + cname.replace(" ", "_"): got[-500:]})
+                    break
+    finally:
+        shutil.rmtree(tdir, ignore_errors=True)
     # outside the dialect: raise, or yield what a standard parser yields
     for name, text in OUTSIDE:
         r = read_impl(text)
